@@ -1,12 +1,310 @@
+import VivModel.Model.Util
 import VivModel.Model.IndexMap
+import VivModel.Lemmas.IndexMap
+/-! C03 — the randomness index is injective, stable and in range.
+
+Everything is proved for EVERY hash function `h : Key → Salt → Nat` with values below the block size,
+every block size, every map satisfying the invariant, every batch, every clock time and every fuel
+(`update_inv`, `update_stable`, `update_registers_batch`), lifted to EVERY history of batches by
+induction (`updates_inv`, `updates_from_empty`), and then instantiated with the concrete `_hash`
+arithmetic through `hashPos_lt` (`imap_update_inv`).
+
+Termination of the collision loop is a hypothesis – `update … = .ok m'` – not a theorem: it is false in
+general (`collision_loop_may_diverge`; on the real code: block size 7, finding F11 of DESIGN.md). -/
 namespace Viv.Props.C03
 open Viv.IndexMap
 
+/-- the property's invariant of `IndexMap._map`: keys pairwise distinct, positions pairwise distinct
+(no two simulants share a position), every position inside the block -/
+def Inv (size : Nat) (m : List Entry) : Prop :=
+  (m.map (·.key)).Nodup ∧ (m.map (·.pos)).Nodup ∧ ∀ e ∈ m, e.pos < size
+
+theorem inv_nil (size : Nat) : Inv size [] := ⟨List.nodup_nil, List.nodup_nil, by simp⟩
+
+/-- entries whose (key, position) pairs all lie in a mapping with distinct positions, and whose keys are
+distinct, have distinct positions -/
+theorem pos_nodup_of_mem (res : List KV) (hv : (valsOf res).Nodup) :
+    ∀ (es : List Entry), (es.map (·.key)).Nodup → (∀ e ∈ es, (e.key, e.pos) ∈ res) → (es.map (·.pos)).Nodup
+  | [], _, _ => List.nodup_nil
+  | a :: as, hk, hm => by
+    simp only [List.map_cons, List.nodup_cons] at hk ⊢
+    refine ⟨?_, pos_nodup_of_mem res hv as hk.2 (fun e he => hm e (List.mem_cons_of_mem _ he))⟩
+    intro hin
+    simp only [List.mem_map] at hin
+    obtain ⟨b, hb, hbp⟩ := hin
+    have h1 := hm a List.mem_cons_self
+    have h2 := hm b (List.mem_cons_of_mem _ hb)
+    rw [hbp] at h2
+    have := key_eq_of_val_eq res hv h1 h2
+    exact hk.1 (by rw [this]; exact List.mem_map_of_mem (f := (·.key)) hb)
+
+/-- **Injective and in range, one update.** For every hash into `[0, size)`: a successful update of a
+map satisfying the invariant yields a map satisfying the invariant. -/
+theorem update_inv (h : Key → Salt → Nat) (size fuel : Nat) (hh : ∀ k s, h k s < size)
+    (m : List Entry) (batch : List (Int × Key)) (t : Salt) (m' : List Entry)
+    (hI : Inv size m) (hu : update h fuel m batch t = .ok m') : Inv size m' := by
+  obtain ⟨res, newE, _, hnd, hperm, hrows, ⟨c, hc, hcmem⟩, hvr, _, hmem⟩ :=
+    update_ok_spec h fuel m batch t m' hI.2.1 hu
+  have hkeys : ((m ++ newE).map (·.key)).Nodup := by
+    have : newE.map (·.key) = batch.map (·.2) := by
+      rw [← hrows]; simp [rowOf, List.map_map, Function.comp_def]
+    rw [List.map_append, this]; exact hnd
+  refine ⟨(hperm.map _).nodup_iff.mpr hkeys,
+    (hperm.map _).nodup_iff.mpr (pos_nodup_of_mem res hvr _ hkeys hmem), ?_⟩
+  intro e he
+  have he' := hperm.mem_iff.mp he
+  have hin := hmem e he'
+  rw [hc] at hin
+  rcases List.mem_append.mp hin with hin | hin
+  · simp only [List.mem_map] at hin
+    obtain ⟨e0, he0, heq⟩ := hin
+    have : e0.pos = e.pos := by simpa [kvOf] using congrArg Prod.snd heq
+    rw [← this]; exact hI.2.2 e0 he0
+  · obtain ⟨_, hp | ⟨s, hp⟩⟩ := hcmem _ hin
+    · simp only at hp; rw [hp]; exact hh _ _
+    · simp only at hp; rw [hp]; exact hh _ _
+
+/-- **Stable, one update.** Every row of the old map is a row of the new map: a position once assigned
+never changes, and the simulant keeps its key. (Needs only distinct old positions.) -/
+theorem update_stable (h : Key → Salt → Nat) (fuel : Nat) (m : List Entry) (batch : List (Int × Key))
+    (t : Salt) (m' : List Entry) (hpos : (m.map (·.pos)).Nodup) (hu : update h fuel m batch t = .ok m') :
+    ∀ e ∈ m, e ∈ m' := by
+  obtain ⟨_, newE, _, _, hperm, _⟩ := update_ok_spec h fuel m batch t m' hpos hu
+  intro e he
+  exact hperm.mem_iff.mpr (List.mem_append_left _ he)
+
+/-- **Every new simulant is registered, nobody else.** The new map has exactly one more row per batch
+row; each batch row `(s, k)` got a position. -/
+theorem update_registers_batch (h : Key → Salt → Nat) (fuel : Nat) (m : List Entry) (batch : List (Int × Key))
+    (t : Salt) (m' : List Entry) (hpos : (m.map (·.pos)).Nodup) (hu : update h fuel m batch t = .ok m') :
+    m'.length = m.length + batch.length ∧ (m'.map rowOf).Perm (m.map rowOf ++ batch) ∧
+    ∀ r ∈ batch, ∃ p, (⟨r.1, r.2, p⟩ : Entry) ∈ m' := by
+  obtain ⟨_, newE, _, _, hperm, hrows, _⟩ := update_ok_spec h fuel m batch t m' hpos hu
+  refine ⟨?_, ?_, ?_⟩
+  · rw [hperm.length_eq, List.length_append, ← hrows, List.length_map]
+  · have := hperm.map rowOf
+    rwa [List.map_append, hrows] at this
+  · intro r hr
+    rw [← hrows] at hr
+    simp only [List.mem_map] at hr
+    obtain ⟨e, he, rfl⟩ := hr
+    exact ⟨e.pos, hperm.mem_iff.mpr (List.mem_append_right _ he)⟩
+
+/-- **All histories.** For every list of registration batches (any sizes, any clock times): if every
+update finishes, the final map satisfies the invariant and still contains every row of the map the
+history started from. Induction over the history. -/
+theorem updates_inv (h : Key → Salt → Nat) (size fuel : Nat) (hh : ∀ k s, h k s < size) :
+    ∀ (hist : List (List (Int × Key) × Salt)) (m m' : List Entry),
+      Inv size m → updates h fuel m hist = .ok m' → Inv size m' ∧ ∀ e ∈ m, e ∈ m'
+  | [], m, m', hI, hu => by
+    simp only [updates, Except.ok.injEq] at hu
+    subst hu; exact ⟨hI, fun _ he => he⟩
+  | (b, t) :: rest, m, m', hI, hu => by
+    simp only [updates] at hu
+    split at hu
+    · rename_i m1 h1
+      have hI1 := update_inv h size fuel hh m b t m1 hI h1
+      obtain ⟨hI', hst⟩ := updates_inv h size fuel hh rest m1 m' hI1 hu
+      exact ⟨hI', fun e he => hst e (update_stable h fuel m b t m1 hI.2.1 h1 e he)⟩
+    · cases hu
+
+/-- … in particular from the empty map (`_map is None`), which is how every real map starts. -/
+theorem updates_from_empty (h : Key → Salt → Nat) (size fuel : Nat) (hh : ∀ k s, h k s < size)
+    (hist : List (List (Int × Key) × Salt)) (m' : List Entry) (hu : updates h fuel [] hist = .ok m') :
+    Inv size m' :=
+  (updates_inv h size fuel hh hist [] m' (inv_nil size) hu).1
+
+/-- a position assigned at any point of a history is still the simulant's position at the end:
+stability across every split of a history into "before" and "after" -/
+theorem updates_append_stable (h : Key → Salt → Nat) (size fuel : Nat) (hh : ∀ k s, h k s < size)
+    (before after : List (List (Int × Key) × Salt)) (m0 m1 m2 : List Entry) (hI : Inv size m0)
+    (h1 : updates h fuel m0 before = .ok m1) (h2 : updates h fuel m1 after = .ok m2) :
+    updates h fuel m0 (before ++ after) = .ok m2 ∧ ∀ e ∈ m1, e ∈ m2 := by
+  have hI1 := (updates_inv h size fuel hh before m0 m1 hI h1).1
+  refine ⟨?_, (updates_inv h size fuel hh after m1 m2 hI1 h2).2⟩
+  clear hI hI1
+  induction before generalizing m0 with
+  | nil => simp only [updates, Except.ok.injEq] at h1; subst h1; simpa using h2
+  | cons bt rest ih =>
+    obtain ⟨b, t⟩ := bt
+    simp only [updates, List.cons_append] at h1 ⊢
+    split at h1
+    · rename_i mx hx; exact ih mx h1
+    · cases h1
+
+/-- **Duplicates are rejected.** If the union of old and new keys contains a key twice, `update` raises
+`RandomnessError` – whatever the hash, the fuel, the labels. -/
+theorem update_dup_rejected (h : Key → Salt → Nat) (fuel : Nat) (m : List Entry) (batch : List (Int × Key))
+    (t : Salt) (hdup : ¬ (m.map (·.key) ++ batch.map (·.2)).Nodup) :
+    update h fuel m batch t = .error .randomness := by
+  unfold update
+  have : nodupB (List.map (fun x => x.2) (m.map rowOf ++ batch)) = false := by
+    cases hb : nodupB (List.map (fun x => x.2) (m.map rowOf ++ batch))
+    · rfl
+    · exfalso; apply hdup
+      have := (nodupB_iff _).mp hb
+      simpa [rowOf, List.map_append, List.map_map, Function.comp_def] using this
+  simp only [this, Bool.not_false, ↓reduceIte]
+
+/-- … and conversely nothing but duplicate-free key sets is ever mapped. -/
+theorem update_ok_keys_nodup (h : Key → Salt → Nat) (fuel : Nat) (m : List Entry) (batch : List (Int × Key))
+    (t : Salt) (m' : List Entry) (hu : update h fuel m batch t = .ok m') :
+    (m.map (·.key) ++ batch.map (·.2)).Nodup := by
+  apply Classical.byContradiction
+  intro hdup
+  rw [update_dup_rejected h fuel m batch t hdup] at hu
+  cases hu
+
+/-- **A rejected update leaves the map unchanged** (object level: `IndexMap.update` raising leaves
+`_map` as it was – for every error, in particular duplicates). -/
+theorem imap_update_error_unchanged (h : Key → Salt → Nat) (fuel : Nat) (im : IMap) (batch : List (Int × Key))
+    (t : Salt) (e : Err) (he : (im.update h fuel batch t).2 = .error e) : (im.update h fuel batch t).1 = im := by
+  unfold IMap.update at he ⊢
+  by_cases hc : (batch.isEmpty || !im.useCrn) = true
+  · rw [if_pos hc]
+  · rw [if_neg hc] at he ⊢
+    cases hx : update h fuel (im.map.getD []) batch t with
+    | ok m' => simp [hx] at he
+    | error e' => simp
+
+theorem imap_update_dup_rejected (h : Key → Salt → Nat) (fuel : Nat) (im : IMap) (batch : List (Int × Key))
+    (t : Salt) (hcrn : im.useCrn = true) (hne : batch ≠ [])
+    (hdup : ¬ ((im.map.getD []).map (·.key) ++ batch.map (·.2)).Nodup) :
+    im.update h fuel batch t = (im, .error .randomness) := by
+  unfold IMap.update
+  have : (batch.isEmpty || !im.useCrn) = false := by
+    cases batch with
+    | nil => exact absurd rfl hne
+    | cons _ _ => simp [hcrn]
+  simp [this, update_dup_rejected h fuel _ batch t hdup]
+
+/-- the `internal` error of the model (a row without position after collision resolution, which the
+real code would turn into a NaN position) cannot occur -/
+theorem update_ne_internal (h : Key → Salt → Nat) (fuel : Nat) (m : List Entry) (batch : List (Int × Key))
+    (t : Salt) (hpos : (m.map (·.pos)).Nodup) : update h fuel m batch t ≠ .error .internal :=
+  update_never_internal h fuel m batch t hpos
+
+/-! ### the concrete hash -/
+
+/-- **In range.** `_hash` ends with Python's `% len(self)`: for a positive block size the position is
+below the block size, whatever the int64 arithmetic before it produced (negative values included). -/
 theorem hashPos_lt (size : Nat) (key : Key) (salt : Salt) (h : 0 < size) : hashPos size key salt < size := by
   unfold hashPos
   have h1 : (0 : Int) < (size : Int) := by omega
   have := Int.emod_lt_of_pos (hashRaw key salt) h1
   have := Int.emod_nonneg (hashRaw key salt) (Int.ne_of_gt h1)
   omega
+
+/-- numpy's wrap-around keeps every intermediate value inside int64 -/
+theorem wrap64_range (x : Int) : -9223372036854775808 ≤ wrap64 x ∧ wrap64 x < 9223372036854775808 := by
+  unfold wrap64
+  have h1 := Int.emod_nonneg (x + 9223372036854775808) (b := 18446744073709551616) (by decide)
+  have h2 := Int.emod_lt_of_pos (x + 9223372036854775808) (b := 18446744073709551616) (by decide)
+  omega
+
+/-- `_spread` and `_digit` stay in their ranges: a ten-digit integer, a decimal digit -/
+theorem spread_range (m : Int) : 0 ≤ spread m ∧ spread m < tenDigitModulus := by
+  unfold spread tenDigitModulus
+  exact ⟨Int.emod_nonneg _ (by decide), Int.emod_lt_of_pos _ (by decide)⟩
+
+theorem digit_range (m : Int) (n : Nat) : 0 ≤ digit m n ∧ digit m n < 10 := by
+  unfold digit
+  exact ⟨Int.emod_nonneg _ (by decide), Int.emod_lt_of_pos _ (by decide)⟩
+
+def IMapInv (im : IMap) : Prop := ∀ m, im.map = some m → Inv im.size m
+
+/-- **The object, with the real hash.** For every `IndexMap` with a positive block size whose `_map`
+satisfies the invariant, every call of `update` – accepted, rejected or a no-op – leaves an object whose
+`_map` satisfies the invariant and still contains every earlier row; the block size and the CRN flag
+never change. -/
+theorem imap_update_inv (fuel : Nat) (im im' : IMap) (batch : List (Int × Key)) (t : Salt) (hs : 0 < im.size)
+    (hI : IMapInv im) (him' : im' = (im.update (hashPos im.size) fuel batch t).1) :
+    IMapInv im' ∧ im'.size = im.size ∧ im'.useCrn = im.useCrn ∧
+    ∀ m, im.map = some m → ∃ m', im'.map = some m' ∧ ∀ e ∈ m, e ∈ m' := by
+  have key : im' = im ∨ ∃ m', update (hashPos im.size) fuel (im.map.getD []) batch t = .ok m' ∧
+      im' = { im with map := some m' } := by
+    rw [him']
+    unfold IMap.update
+    split
+    · exact Or.inl rfl
+    · split
+      · rename_i m' hx; exact Or.inr ⟨m', hx, rfl⟩
+      · exact Or.inl rfl
+  rcases key with hk | ⟨m', hx, hk⟩
+  · rw [hk]; exact ⟨hI, rfl, rfl, fun m hm => ⟨m, hm, fun _ he => he⟩⟩
+  · have hold : Inv im.size (im.map.getD []) := by
+      cases hm : im.map with
+      | none => exact inv_nil _
+      | some m => exact hI m hm
+    have hI' := update_inv (hashPos im.size) im.size fuel (fun k s => hashPos_lt im.size k s hs) _ batch t m' hold hx
+    rw [hk]
+    refine ⟨?_, rfl, rfl, ?_⟩
+    · intro m hm; simp only [Option.some.injEq] at hm; subst hm; exact hI'
+    · intro m hm
+      refine ⟨m', rfl, ?_⟩
+      have := update_stable (hashPos im.size) fuel _ batch t m' hold.2.1 hx
+      rw [hm] at this
+      exact this
+
+/-- `__getitem__` after an update: a simulant registered earlier is still looked up at its position
+(simulant labels pairwise distinct, as the population manager guarantees) -/
+theorem get_stable (h : Key → Salt → Nat) (fuel : Nat) (m : List Entry) (batch : List (Int × Key))
+    (t : Salt) (m' : List Entry) (hpos : (m.map (·.pos)).Nodup)
+    (hsims : (m.map (·.sim) ++ batch.map (·.1)).Nodup)
+    (hu : update h fuel m batch t = .ok m') :
+    (m'.map (·.sim)).Nodup ∧ ∀ e ∈ m, posOfSim m' e.sim = some e.pos := by
+  have hs' : (m'.map (·.sim)).Nodup := by
+    obtain ⟨_, hperm, _⟩ := update_registers_batch h fuel m batch t m' hpos hu
+    have := (hperm.map (·.1))
+    simp only [List.map_map, List.map_append] at this
+    have h2 : (List.map (Prod.fst ∘ rowOf) m') = m'.map (·.sim) := by
+      apply List.map_congr_left; intro e _; rfl
+    have h3 : (List.map (Prod.fst ∘ rowOf) m) = m.map (·.sim) := by
+      apply List.map_congr_left; intro e _; rfl
+    rw [h2, h3] at this
+    exact this.nodup_iff.mpr hsims
+  exact ⟨hs', fun e he => posOfSim_of_mem m' hs' e (update_stable h fuel m batch t m' hpos hu e he)⟩
+
+/-! ### termination is a hypothesis, and has to be -/
+
+/-- If the hash ignores the salt on the colliding keys (on the real code: the salt shift
+`ncols·111111·salt` vanishes modulo the block size, e.g. size 7) and one of them cannot be placed, the
+collision loop never finishes: for EVERY fuel the model runs out of fuel. -/
+theorem collision_loop_may_diverge (h : Key → Salt → Nat) (k : Key) (p : Nat)
+    (hblind : ∀ s, h k (.int s) = p) :
+    ∀ (fuel salt : Nat) (cur : List KV), p ∈ valsOf cur → k ∉ keysOf cur → (valsOf cur).Nodup →
+      resolveLoop h fuel salt [k] cur = none := by
+  intro fuel
+  induction fuel with
+  | zero => intros; rfl
+  | succ f ih =>
+    intro salt cur hp hk hv
+    unfold resolveLoop
+    simp only [List.isEmpty_cons, Bool.false_eq_true, ↓reduceIte, List.map_cons, List.map_nil, hblind]
+    have hdd : dropDup (cur ++ [(k, p)]) = cur := by
+      rw [dropDup_append_eq cur _ hv]
+      simp [dropDup, hp]
+    rw [hdd]
+    have hdiff : diff (keysOf [(k, p)]) (keysOf cur) = [k] := by
+      have hk' : k ∉ List.map (fun x : KV => x.1) cur := hk
+      simp [diff, keysOf, sortKeys, List.filter, hk', uniq, isort, insertBy]
+    rw [hdiff]
+    exact ih (salt + 1) cur hp hk hv
+
+/-! ### non-vacuity: the hypotheses are inhabited by concrete maps and the real hash -/
+
+-- block size 5, keys 0, 1, 5: the first two hash to 1 and 0, the third collides and is re-hashed to 2
+example : update (hashPos 5) 10 [] [(0, [.int 0]), (1, [.int 1]), (2, [.int 5])] (.int 0) =
+    .ok [⟨0, [.int 0], 1⟩, ⟨1, [.int 1], 0⟩, ⟨2, [.int 5], 2⟩] := by decide
+example : Inv 5 [⟨0, [.int 0], 1⟩, ⟨1, [.int 1], 0⟩, ⟨2, [.int 5], 2⟩] := by
+  refine ⟨by decide, by decide, by decide⟩
+-- a later batch (relabelled, two columns are fine too) keeps the earlier rows
+example : update (hashPos 5) 10 [⟨0, [.int 0], 1⟩, ⟨1, [.int 1], 0⟩] [(7, [.int 5])] (.int 3) =
+    .ok [⟨0, [.int 0], 1⟩, ⟨1, [.int 1], 0⟩, ⟨7, [.int 5], 4⟩] := by decide
+-- duplicate key (inside the batch / with the old map) is rejected
+example : update (hashPos 5) 10 [⟨0, [.int 0], 1⟩] [(1, [.int 0])] (.int 3) = .error .randomness := by decide
+example : update (hashPos 5) 10 [] [(0, [.int 4]), (1, [.int 4])] (.int 3) = .error .randomness := by decide
+-- block size 7 divides 111111: keys 1 and 2 collide and the salt never separates them
+example : update (hashPos 7) 50 [] [(0, [.int 1]), (1, [.int 2])] (.int 0) = .error .fuel := by decide
 
 end Viv.Props.C03
